@@ -73,7 +73,7 @@ def build(reg, src):
             return
         eng.oblige(f"{eng.cur_key}#crash-point-frame@line-ordinal{eng.site_ordinal('stmt', node)}", st, g, kind='frame-at-every-point')
 
-    reg.fn(F + '_write_file', params=dict(file_name=Str, new_file_contents=Str, use_fsync=Bool), setup=setup_cache,
+    reg.fn(F + '_write_file', params=dict(file_name=fs.FKey, new_file_contents=Str, use_fsync=Bool), setup=setup_cache,
            requires=[lambda s: Not(s.st.field(s.st.field(s.self, 'file_futures_lock'), '__held'))],
            returns=Str, raises=['OSError'], modifies=wf_modifies, at_every_point=every_point,
            ensures=[lambda s, r: And(s.g('os')[P(s)] == s.new_file_contents, s.g('os_ex')[P(s)]),
@@ -85,7 +85,7 @@ def build(reg, src):
     def uf_modifies(eng, st, s):
         wf_modifies(eng, st, s)
 
-    reg.fn(F + 'update_file', params=dict(file_name=Str, new_file_contents=Str, use_fsync=Bool), setup=setup_cache,
+    reg.fn(F + 'update_file', params=dict(file_name=fs.FKey, new_file_contents=Str, use_fsync=Bool), setup=setup_cache,
            requires=[lambda s: Not(s.st.field(s.st.field(s.self, 'file_futures_lock'), '__held')),
                      # single client at rest (C16's quiescent invariant): no write is in flight for this file
                      lambda s: Not(s.st.field(s.st.field(s.self, 'file_futures'), 'writing')[s.file_name])],
@@ -109,7 +109,7 @@ def build(reg, src):
         return [(st, VStr(SER(eng.as_obj(args[0]))))]
     reg.externals['serialize_obj'] = ser_model
 
-    reg.fn(KV + 'set', params=dict(x=Str), setup=kv_setup,
+    reg.fn(KV + 'set', params=dict(x=fs.FKey), setup=kv_setup,
            requires=[lambda s: Not(s.st.field(s.st.field(s.st.field(s.self, 'cache'), 'file_futures_lock'), '__held')),
                      lambda s: Not(s.st.field(s.st.field(s.st.field(s.self, 'cache'), 'file_futures'), 'writing')[s.x])],
            returns=None,
